@@ -152,7 +152,7 @@ pub fn record_cont(output: &str) {
             prev[5] += 2.0 * PI * r.gen_range(-4..=4) as f64;
         }
         // a previous position that is not singular itself: the wrist 2 degrees bent, on the way to the straight posture
-        if k % 6 == 4 && !realised && !sentinel { prev[4] += 0.035 * if r.gen_bool(0.5) { 1.0 } else { -1.0 }; }
+        if k % 6 == 5 && !realised && !sentinel { prev[4] += 0.035 * if r.gen_bool(0.5) { 1.0 } else { -1.0 }; }
         if sentinel {
             let (f, t, w) = limits.unwrap();
             prev = rs_opw_kinematics::constraints::Constraints::new(f, t, w).centers;
